@@ -34,6 +34,69 @@ struct R(#[entities] Entity);
 #[derive(Component, Serialize, Deserialize, Clone, Copy)]
 struct P(u32);
 
+// remote events: server->client SE0 (ordered), SEI (ordered, independent), SEM (ordered, mapped entity),
+// SEU (unreliable), ST (trigger with targets); client->server CE0, CEM (mapped), CT (trigger with targets)
+#[derive(Event, Serialize, Deserialize, Clone, Copy)]
+struct SE0(u32);
+#[derive(Event, Serialize, Deserialize, Clone, Copy)]
+struct SEI(u32);
+#[derive(Event, Serialize, Deserialize, Clone, Copy, MapEntities)]
+struct SEM(u32, #[entities] Entity);
+#[derive(Event, Serialize, Deserialize, Clone, Copy)]
+struct SEU(u32);
+#[derive(Event, Serialize, Deserialize, Clone, Copy)]
+struct ST(u32);
+#[derive(Event, Serialize, Deserialize, Clone, Copy)]
+struct CE0(u32);
+#[derive(Event, Serialize, Deserialize, Clone, Copy, MapEntities)]
+struct CEM(u32, #[entities] Entity);
+#[derive(Event, Serialize, Deserialize, Clone, Copy)]
+struct CT(u32);
+
+/// What game logic observed: (type name, sequence number, entity if any, sender client entity if any).
+#[derive(Resource, Default)]
+struct EventLog(Vec<(&'static str, u32, Option<Entity>, Option<Entity>)>);
+
+fn log_client_side(
+    mut log: ResMut<EventLog>,
+    mut a: EventReader<SE0>,
+    mut b: EventReader<SEI>,
+    mut c: EventReader<SEM>,
+    mut d: EventReader<SEU>,
+) {
+    for e in a.read() {
+        log.0.push(("SE0", e.0, None, None));
+    }
+    for e in b.read() {
+        log.0.push(("SEI", e.0, None, None));
+    }
+    for e in c.read() {
+        log.0.push(("SEM", e.0, Some(e.1), None));
+    }
+    for e in d.read() {
+        log.0.push(("SEU", e.0, None, None));
+    }
+}
+
+fn log_server_side(mut log: ResMut<EventLog>, mut a: EventReader<FromClient<CE0>>, mut b: EventReader<FromClient<CEM>>) {
+    for e in a.read() {
+        log.0.push(("CE0", e.event.0, None, Some(e.client)));
+    }
+    for e in b.read() {
+        log.0.push(("CEM", e.event.0, Some(e.event.1), Some(e.client)));
+    }
+}
+
+fn observe_st(trigger: Trigger<ST>, mut log: ResMut<EventLog>) {
+    let t = trigger.target();
+    log.0.push(("ST", trigger.event().0, if t == Entity::PLACEHOLDER { None } else { Some(t) }, None));
+}
+
+fn observe_ct(trigger: Trigger<FromClient<CT>>, mut log: ResMut<EventLog>) {
+    let t = trigger.target();
+    log.0.push(("CT", trigger.event().event.0, if t == Entity::PLACEHOLDER { None } else { Some(t) }, Some(trigger.event().client)));
+}
+
 const KINDS: usize = 5; // 0 A, 1 B, 2 O (once), 3 R (entity reference), 4 P (periodic 2)
 
 #[derive(Clone, Debug)]
@@ -53,12 +116,16 @@ enum Sop {
     Unmark(u32),
     Vis(usize, u32, bool),
     Map(usize, u32, u32),
+    /// event type, mode (b | x<slot> | d<slot> | ds), sequence number, entity (script id) for SEM / ST
+    Ev(String, String, u32, Option<u32>),
 }
 
 #[derive(Clone, Debug)]
 enum Cop {
     Prespawn(u32),
     Despawn(u32),
+    /// event type, sequence number, server entity (as real Entity) for CEM / CT
+    Ev(String, u32, Option<Entity>),
 }
 
 #[derive(Resource, Default)]
@@ -118,6 +185,16 @@ fn add_common(app: &mut App, cfg: &Cfg, server_side: bool) {
         .replicate_once::<O>()
         .replicate::<R>()
         .replicate_periodic::<P>(2);
+    app.add_server_event::<SE0>(Channel::Ordered)
+        .add_server_event::<SEI>(Channel::Ordered)
+        .make_event_independent::<SEI>()
+        .add_mapped_server_event::<SEM>(Channel::Ordered)
+        .add_server_event::<SEU>(Channel::Unreliable)
+        .add_server_trigger::<ST>(Channel::Ordered)
+        .add_client_event::<CE0>(Channel::Ordered)
+        .add_mapped_client_event::<CEM>(Channel::Ordered)
+        .add_client_trigger::<CT>(Channel::Ordered)
+        .init_resource::<EventLog>();
     if cfg.track {
         app.track_mutate_messages();
     }
@@ -293,6 +370,44 @@ fn apply_sops(world: &mut World) {
                     }
                 }
             }
+            Sop::Ev(ty, mode, seq, ent) => {
+                let slots = world.resource::<ClientEnts>().0.clone();
+                let slot_ent = |s: &str| s.parse::<usize>().ok().and_then(|i| slots.get(i).copied().flatten());
+                let mode = match mode.as_str() {
+                    "b" => Some(SendMode::Broadcast),
+                    "ds" => Some(SendMode::Direct(SERVER)),
+                    m if m.starts_with('x') => slot_ent(&m[1..]).map(SendMode::BroadcastExcept),
+                    m if m.starts_with('d') => slot_ent(&m[1..]).map(SendMode::Direct),
+                    _ => None,
+                };
+                let target = ent.and_then(|id| world.resource::<Table>().ents.get(&id).copied());
+                let Some(mode) = mode else { continue };
+                match ty.as_str() {
+                    "SE0" => {
+                        world.send_event(ToClients { mode, event: SE0(seq) });
+                    }
+                    "SEI" => {
+                        world.send_event(ToClients { mode, event: SEI(seq) });
+                    }
+                    "SEU" => {
+                        world.send_event(ToClients { mode, event: SEU(seq) });
+                    }
+                    "SEM" => {
+                        if let Some(t) = target {
+                            world.send_event(ToClients { mode, event: SEM(seq, t) });
+                        }
+                    }
+                    "ST" => {
+                        if let Some(t) = target {
+                            world.commands().server_trigger_targets(ToClients { mode, event: ST(seq) }, t);
+                        } else {
+                            world.commands().server_trigger(ToClients { mode, event: ST(seq) });
+                        }
+                        world.flush();
+                    }
+                    _ => {}
+                }
+            }
             Sop::Map(c, id, pc) => {
                 let ce = world.resource::<ClientEnts>().0.get(c).copied().flatten();
                 let e = world.resource::<Table>().ents.get(&id).copied();
@@ -322,6 +437,36 @@ fn apply_cops(world: &mut World) {
                     if let Ok(em) = world.get_entity_mut(e) {
                         em.despawn();
                     }
+                }
+            }
+            Cop::Ev(ty, seq, server_ent) => {
+                // the client's own entity for that server entity; an entity the map does not know otherwise
+                let local = server_ent.map(|se| {
+                    world
+                        .resource::<ServerEntityMap>()
+                        .to_client()
+                        .get(&se)
+                        .copied()
+                        .unwrap_or(Entity::from_raw(4_000_000))
+                });
+                match ty.as_str() {
+                    "CE0" => {
+                        world.send_event(CE0(seq));
+                    }
+                    "CEM" => {
+                        if let Some(l) = local {
+                            world.send_event(CEM(seq, l));
+                        }
+                    }
+                    "CT" => {
+                        if let Some(l) = local {
+                            world.commands().client_trigger_targets(CT(seq), l);
+                        } else {
+                            world.commands().client_trigger(CT(seq));
+                        }
+                        world.flush();
+                    }
+                    _ => {}
                 }
             }
         }
@@ -371,7 +516,8 @@ impl Sim {
             .init_resource::<ClientEnts>()
             .init_resource::<PreMap>()
             .init_resource::<ReplicationRan>()
-            .add_systems(Update, apply_sops)
+            .add_systems(Update, (log_server_side, apply_sops).chain())
+            .add_observer(observe_ct)
             // same shape as `send_replication`: the change detection is only evaluated while the server runs
             .configure_sets(
                 PostUpdate,
@@ -394,7 +540,8 @@ impl Sim {
             app.init_resource::<PendingCops>()
                 .init_resource::<Pre>()
                 .init_resource::<TickEvents>()
-                .add_systems(Update, (apply_cops, collect_tick_events));
+                .add_systems(Update, (apply_cops, collect_tick_events, log_client_side))
+                .add_observer(observe_st);
             app.finish();
             app.cleanup();
             clients.push(ClientSlot {
@@ -513,6 +660,73 @@ impl Sim {
         go().unwrap_or_else(|| "UNDECODABLE".into())
     }
 
+    /// server->client event channels: 2 SE0, 3 SEI, 4 SEM, 5 SEU, 6 ST (without the protocol check)
+    fn decode_sevent(&self, ch: usize, mut m: Bytes) -> String {
+        let names = ["SE0", "SEI", "SEM", "SEU", "ST"];
+        let Some(name) = ch.checked_sub(2).and_then(|i| names.get(i)) else { return format!("ch={ch} {}", hex(&m)) };
+        let mut go = || -> Option<String> {
+            let tick = if *name == "SEI" { "-".to_string() } else { postcard_utils::from_buf::<u32, _>(&mut m).ok()?.to_string() };
+            match *name {
+                "SEM" => {
+                    let seq: u32 = postcard_utils::from_buf(&mut m).ok()?;
+                    let bits: u64 = postcard_utils::from_buf(&mut m).ok()?;
+                    let e = Entity::try_from_bits(bits).ok()?;
+                    Some(format!("{name} t={tick} {seq}:r{}", self.sid(e)))
+                }
+                "ST" => {
+                    let n: usize = postcard_utils::from_buf(&mut m).ok()?;
+                    let mut t = None;
+                    for _ in 0..n {
+                        t = Some(entity_serde::deserialize_entity(&mut m).ok()?);
+                    }
+                    let seq: u32 = postcard_utils::from_buf(&mut m).ok()?;
+                    Some(match t {
+                        Some(e) => format!("{name} t={tick} {seq}:r{}", self.sid(e)),
+                        None => format!("{name} t={tick} {seq}"),
+                    })
+                }
+                _ => {
+                    let seq: u32 = postcard_utils::from_buf(&mut m).ok()?;
+                    Some(format!("{name} t={tick} {seq}"))
+                }
+            }
+        };
+        go().unwrap_or_else(|| "UNDECODABLE".into())
+    }
+
+    /// client->server event channels: 1 CE0, 2 CEM, 3 CT
+    fn decode_cevent(&self, ch: usize, mut m: Bytes) -> String {
+        let names = ["CE0", "CEM", "CT"];
+        let Some(name) = ch.checked_sub(1).and_then(|i| names.get(i)) else { return format!("ch={ch} {}", hex(&m)) };
+        let mut go = || -> Option<String> {
+            match *name {
+                "CEM" => {
+                    let seq: u32 = postcard_utils::from_buf(&mut m).ok()?;
+                    let bits: u64 = postcard_utils::from_buf(&mut m).ok()?;
+                    let e = Entity::try_from_bits(bits).ok()?;
+                    Some(format!("{name} {seq}:r{}", self.sid(e)))
+                }
+                "CT" => {
+                    let n: usize = postcard_utils::from_buf(&mut m).ok()?;
+                    let mut t = None;
+                    for _ in 0..n {
+                        t = Some(entity_serde::deserialize_entity(&mut m).ok()?);
+                    }
+                    let seq: u32 = postcard_utils::from_buf(&mut m).ok()?;
+                    Some(match t {
+                        Some(e) => format!("{name} {seq}:r{}", self.sid(e)),
+                        None => format!("{name} {seq}"),
+                    })
+                }
+                _ => {
+                    let seq: u32 = postcard_utils::from_buf(&mut m).ok()?;
+                    Some(format!("{name} {seq}"))
+                }
+            }
+        };
+        go().unwrap_or_else(|| "UNDECODABLE".into())
+    }
+
     fn decode_mutate(&self, mut m: Bytes) -> String {
         let mut go = || -> Option<String> {
             let upd: u32 = postcard_utils::from_buf(&mut m).ok()?;
@@ -567,7 +781,7 @@ impl Sim {
             match ch {
                 0 => lines.push((c, format!("upd {c} {}", self.decode_update(c, msg.clone())))),
                 1 => lines.push((c, format!("mut {c} {}", self.decode_mutate(msg.clone())))),
-                _ => lines.push((c, format!("evt {c} ch={ch} {}", hex(&msg)))),
+                _ => lines.push((c, format!("evt {c} {}", self.decode_sevent(ch, msg.clone())))),
             }
             if ch < NCH {
                 self.clients[c].s2c[ch].push_back(msg);
@@ -575,6 +789,25 @@ impl Sim {
         }
         lines.sort_by_key(|(c, _)| *c); // stable: per client the sending order is kept
         out.extend(lines.into_iter().map(|(_, l)| l));
+        let log = std::mem::take(&mut self.server.world_mut().resource_mut::<EventLog>().0);
+        if !log.is_empty() {
+            let slots = self.server.world().resource::<ClientEnts>().0.clone();
+            let items: Vec<String> = log
+                .iter()
+                .map(|(ty, seq, ent, sender)| {
+                    let who = match sender {
+                        Some(e) if *e == SERVER => "S".to_string(),
+                        Some(e) => slots.iter().position(|s| *s == Some(*e)).map(|i| i.to_string()).unwrap_or("?".into()),
+                        None => "-".into(),
+                    };
+                    match ent {
+                        Some(e) => format!("{ty}:{seq}:r{}@{who}", self.sid(*e)),
+                        None => format!("{ty}:{seq}@{who}"),
+                    }
+                })
+                .collect();
+            out.push(format!("from {}", items.join(",")));
+        }
         if ran {
             for c in 0..self.clients.len() {
                 if let Some(v) = self.server_view(c) {
@@ -638,7 +871,7 @@ impl Sim {
                 let idx: Vec<String> = msg.chunks(2).map(|p| format!("{}", p[0] as u16 | ((*p.get(1).unwrap_or(&0) as u16) << 8))).collect();
                 out.push(format!("ack {c} {}", idx.join(",")));
             } else {
-                out.push(format!("cevt {c} ch={ch} {}", hex(&msg)));
+                out.push(format!("cevt {c} {}", self.decode_cevent(ch, msg.clone())));
             }
             if ch < NCH {
                 self.clients[c].c2s[ch].push_back(msg);
@@ -647,6 +880,23 @@ impl Sim {
         let ticks = std::mem::take(&mut self.clients[c].app.world_mut().resource_mut::<TickEvents>().0);
         if !ticks.is_empty() {
             out.push(format!("tickrecv {c} {}", ticks.iter().map(|t| t.to_string()).collect::<Vec<_>>().join(",")));
+        }
+        let log = std::mem::take(&mut self.clients[c].app.world_mut().resource_mut::<EventLog>().0);
+        if !log.is_empty() {
+            let rev = self.server.world().resource::<Table>().rev.clone();
+            let to_server: HashMap<Entity, Entity> =
+                self.clients[c].app.world().resource::<ServerEntityMap>().to_server().iter().map(|(c, s)| (*c, *s)).collect();
+            let items: Vec<String> = log
+                .iter()
+                .map(|(ty, seq, ent, _)| match ent {
+                    Some(e) => format!(
+                        "{ty}:{seq}:r{}",
+                        to_server.get(e).and_then(|s| rev.get(s)).map(|i| i.to_string()).unwrap_or("?".into())
+                    ),
+                    None => format!("{ty}:{seq}"),
+                })
+                .collect();
+            out.push(format!("got {c} {}", items.join(",")));
         }
         out.push(self.client_view(c));
     }
@@ -776,8 +1026,18 @@ impl Sim {
             }
             "cop" => {
                 let c: usize = t[1].parse().unwrap();
-                let id: u32 = t[3].parse().unwrap();
-                let op = if t[2] == "prespawn" { Cop::Prespawn(id) } else { Cop::Despawn(id) };
+                let op = match t[2] {
+                    "prespawn" => Cop::Prespawn(t[3].parse().unwrap()),
+                    "despawn" => Cop::Despawn(t[3].parse().unwrap()),
+                    _ => {
+                        // cop <c> ev <type> <seq> [r<entity>]
+                        let ent = t.get(5).and_then(|s| s.trim_start_matches('r').parse::<u32>().ok());
+                        let se = ent.map(|id| {
+                            self.server.world().resource::<Table>().ents.get(&id).copied().unwrap_or(Entity::from_raw(4_000_001))
+                        });
+                        Cop::Ev(t[3].into(), t[4].parse().unwrap(), se)
+                    }
+                };
                 self.clients[c].app.world_mut().resource_mut::<PendingCops>().0.push(op);
             }
             "sframe" => {
@@ -871,6 +1131,7 @@ fn parse_sop(t: &[&str]) -> Option<Sop> {
         "unmark" => Sop::Unmark(t[1].parse().ok()?),
         "vis" => Sop::Vis(t[1].parse().ok()?, t[2].parse().ok()?, t[3] == "1"),
         "map" => Sop::Map(t[1].parse().ok()?, t[2].parse().ok()?, t[3].parse().ok()?),
+        "ev" => Sop::Ev(t[1].into(), t[2].into(), t[3].parse().ok()?, t.get(4).and_then(|s| s.trim_start_matches('r').parse().ok())),
         _ => return None,
     })
 }
